@@ -1,8 +1,7 @@
 import FluteModel.Lct
 /-
   Model of src/common/alccodec/*.rs (the six `AlcCodec` implementations) and of the parts of
-  src/common/oti.rs they use.  `a | b` on disjoint bit ranges is written `a + b`; where the ranges can
-  overlap (RS GF(2^m) payload id with m < 8) the bitwise OR is kept.
+  src/common/oti.rs they use.  `a | b` on disjoint bit ranges is written `a + b`.
 -/
 namespace Flute.Fti
 open Flute Flute.Bytes Flute.Lct
@@ -226,7 +225,7 @@ def addPayloadId (oti : Oti) (sbn esi sbl : Nat) : Rs (List Nat) :=
   else if oti.fecId = RS2M then
     let m := rsM oti
     if m ≥ 32 then .error "attempt to shift left with overflow"
-    else .ok (beBytes 4 (((sbn <<< m) % 2^32) ||| (esi % 2^8)))
+    else .ok (beBytes 4 ((sbn * 2^m) % 2^32 + esi % 2^m))   -- `(sbn << m) | esi & ((1 << m) - 1)`: repair of D36 (mask was 0xFF)
   else if oti.fecId = RAPTORQ then .ok (beBytes 4 ((sbn % 2^8) * 2^24 + esi % 2^24))
   else if oti.fecId = RAPTOR then .ok (beBytes 4 ((sbn % 2^16) * 2^16 + esi % 2^16))
   else .error "not a FECEncodingID"
